@@ -11,7 +11,7 @@ from ..sym import R, real, rmax
 from . import kernel
 from . import mineral_h as mh
 from .C05 import uf_field
-from .common import all_eq, eq, np_installed, pydrex_modules, sample
+from .common import all_eq, eq, np_installed, pydrex_modules, sample, only_path
 
 TIMEOUT_MS = {"quick": 60000, "thorough": 300000}
 
@@ -152,7 +152,7 @@ def t_phi_times_mobility(sess, n_grains, regime):
         paths, info = sym.explore(fn)
     if len(paths) != 1 or paths[0].exc is not None:
         raise sym.HarnessError(f"unexpected paths {paths}")
-    p = paths[0]
+    p = only_path(sess, paths)
     multi, single = p.value
     sess.satisfiable(f"phi*M [{regime}]: reach", p.pc)
     sess.prove(f"phi*M [{regime}]: multiphase volume rates = single-phase volume rates at mobility phi*M*", p.pc, all_eq(multi[1], single[1]))
@@ -232,7 +232,7 @@ def t_update_all_order(sess):
         return calls[:n], calls[n:], Fin, params, gv, path
 
     paths, _ = sym.explore(fn)
-    p = paths[0]
+    p = only_path(sess, paths)
     c1, c2, Fin, params, gv, path = p.value
     sess.satisfiable("update_all order: reach", p.pc)
     by1 = {n: kw for n, kw in c1}
